@@ -100,6 +100,31 @@ class FaultyCache:
         except KeyError:
             return False
 
+    def __getattr__(self, name):
+        # Transparency: any other mapping method exists on the wrapper exactly when the real object has it (a
+        # cache_size=0 mapping without `.get` must still raise AttributeError; a dict-based cache asked with `.get`
+        # must work). Read-style methods go through the faulting __getitem__, everything else is forwarded.
+        inner = self.__dict__.get("_inner")
+        if inner is None or name.startswith("__"):
+            raise AttributeError(name)
+        attr = getattr(inner, name)  # AttributeError here = the real object's own behaviour
+        if name == "get":
+            def get(key, default=None):
+                try:
+                    return self[key]
+                except KeyError:
+                    return default
+            return get
+        if name == "setdefault":
+            def setdefault(key, default=None):
+                try:
+                    return self[key]
+                except KeyError:
+                    self[key] = default
+                    return default
+            return setdefault
+        return attr
+
     def entries(self):
         """Number of entries held by the real cache (0 if it cannot say)."""
         try:
